@@ -1,5 +1,146 @@
-(** placeholder while the pipeline is brought up *)
+(** Property C11 - the generator emits the API the DBC implies (decision logic and conversion typing).
+
+    The theorems are about Gen/Api.v, the model of the decisions of internal/generate/file.go
+    (tied to the code on every run by checks/api.py). The class is [in_class43] (Gen/ApiSpec.v,
+    DESIGN.md 4.3). PARTIAL with respect to the property text: that generation returns no error, is
+    byte-identical when repeated, gofmt-canonical and compiles is OBSERVED on the sampled programs of
+    every run, not proved (go/format and the Go compiler are not modelled). What is proved, for ALL
+    databases of the class: field types, enum types/constants, physical accessors, node groups, and
+    that every conversion / constant / library call the templates emit is well-typed ([conv_ok]).
+
+    Exact values: [fval b] is the value of the finite binary64 pattern b times 2^1074 (an integer),
+    [scaled n = n * 2^1074]; so [fval x < scaled n] is the exact comparison of x with the integer n. *)
 From Coq Require Import ZArith List Bool.
-From CanVerif Require Import Descriptor.Types Gen.Message Gen.Api Gen.ApiSpec.
-Theorem C11_placeholder : True. Proof. exact I. Qed.
-Print Assumptions C11_placeholder.
+From CanVerif Require Import Descriptor.Types Gen.Message Gen.Api Gen.ApiSpec Gen.ApiProofs.
+Import ListNotations.
+Open Scope Z_scope.
+
+(** Go type of a signal's field and accessors: bool iff 1 bit, float32 iff float, otherwise the
+    NARROWEST of (u)int8/16/32/64 whose width holds the length, signed iff the signal is signed. *)
+Theorem C11_field_type : forall db m s,
+  in_class43 db = true -> In m (db_messages db) -> In s (msg_signals m) ->
+  let t := signal_prim_type s in
+  (t = PBool <-> s_length s = 1) /\
+  (t = PFloat32 <-> s_float s = true) /\
+  (s_length s <> 1 -> s_float s = false ->
+     exists w, t = (if s_signed s then PInt w else PUint w) /\ In w [8; 16; 32; 64] /\ s_length s <= w /\
+               forall w', In w' [8; 16; 32; 64] -> s_length s <= w' -> w <= w').
+Proof. exact class_field_type_explicit. Qed.
+Print Assumptions C11_field_type.
+
+(** A named enum type <Msg>_<Sig> exists iff the signal has value descriptions (then it is the type
+    of field and accessors); one constant <Msg>_<Sig>_<slug> per value description. *)
+Theorem C11_enum_type : forall hp m s,
+  let sa := signal_api_with hp m s in
+  (s_value_descriptions s <> [] -> sa_enum sa = Some (msg_name m ++ k_us ++ s_name s) /\
+                                   sa_type sa = GNamed (msg_name m ++ k_us ++ s_name s)) /\
+  (s_value_descriptions s = [] -> sa_enum sa = None /\ sa_type sa = GBasic (basic_of_prim (signal_prim_type s))) /\
+  sa_consts sa = map (fun vd => {| ec_name := msg_name m ++ k_us ++ s_name s ++ k_us ++ slugify (vdesc_text vd);
+                                   ec_value := enum_const_val s vd |}) (s_value_descriptions s).
+Proof. exact enum_type_iff. Qed.
+Print Assumptions C11_enum_type.
+
+(** ... whose value is the description's value, true/false for a 1-bit signal *)
+Theorem C11_enum_const_value : forall db m s vd,
+  in_class43 db = true -> In m (db_messages db) -> In s (msg_signals m) -> In vd (s_value_descriptions s) ->
+  enum_const_val s vd = if s_length s =? 1 then CBool (vdesc_value vd =? 1) else CInt (vdesc_value vd).
+Proof. exact class_enum_const_values. Qed.
+Print Assumptions C11_enum_const_value.
+
+(** Physical accessors (X/SetX float64 + RawX/SetRawX) exactly when the signal is multi-bit and has a
+    factor outside {0,1}, a non-zero offset, or a declared range (min or max non-zero) that is narrower
+    than the representable range [raw_min, raw_max] - all in exact arithmetic. *)
+Theorem C11_physical_accessors : forall db m s,
+  in_class43 db = true -> In m (db_messages db) -> In s (msg_signals m) ->
+  sa_physical (signal_api_with has_physical m s) =
+    (1 <? s_length s)
+    && ( (negb (fval (s_scale s) =? 0) && negb (fval (s_scale s) =? scaled 1))
+         || negb (fval (s_offset s) =? 0)
+         || ( (negb (fval (s_min s) =? 0) || negb (fval (s_max s) =? 0))
+              && ( (scaled (raw_min s) <? fval (s_min s)) || (fval (s_max s) <? scaled (raw_max s)) ) ) ).
+Proof. exact class_has_physical. Qed.
+Print Assumptions C11_physical_accessors.
+
+(** the accessor sets that go with the decision *)
+Theorem C11_accessor_sets : forall hp m s,
+  let sa := signal_api_with hp m s in
+  let t := sa_type sa in
+  let self := GPtr (msg_name m) in
+  (hp s = true ->
+     sa_reader sa = [ mk_sig (s_name s) [] [GBasic BFloat64]; mk_sig (k_Raw ++ s_name s) [] [t] ] /\
+     sa_writer sa = [ mk_sig (k_Set ++ s_name s) [GBasic BFloat64] [self]; mk_sig (k_SetRaw ++ s_name s) [t] [self] ]) /\
+  (hp s = false ->
+     sa_reader sa = [ mk_sig (s_name s) [] [t] ] /\ sa_writer sa = [ mk_sig (k_Set ++ s_name s) [t] [self] ]).
+Proof. exact accessor_sets. Qed.
+Print Assumptions C11_accessor_sets.
+
+(** Rx(n) = the messages with a signal received by n, Tx(n) = the messages sent by n that have a send
+    type, both in database order *)
+Theorem C11_node_groups : forall db n,
+  (exists f, collect_rx db n = filter f (db_messages db) /\
+             forall m, f m = true <-> exists s, In s (msg_signals m) /\ In (node_name n) (s_receivers s)) /\
+  (exists g, collect_tx db n = filter g (db_messages db) /\
+             forall m, g m = true <-> msg_sender m = node_name n /\ msg_send_type m <> SendNone) /\
+  na_rx (node_api_of db n) = map msg_name (collect_rx db n) /\
+  na_tx (node_api_of db n) = map (fun m => (msg_name m, is_cyclic (msg_send_type m))) (collect_tx db n).
+Proof. exact node_groups. Qed.
+Print Assumptions C11_node_groups.
+
+(** node code is generated iff some message has a send type, and then for every node *)
+Theorem C11_node_gate : forall db,
+  ((exists m, In m (db_messages db) /\ msg_send_type m <> SendNone) ->
+     api_nodes (api_of_db db) = Some (map (node_api_of db) (db_nodes db))) /\
+  ((forall m, In m (db_messages db) -> msg_send_type m = SendNone) -> api_nodes (api_of_db db) = None).
+Proof. exact (fun db => conj (node_code_gate db) (node_code_gate_none db)). Qed.
+Print Assumptions C11_node_gate.
+
+(** every conversion T(x), constant use (enum constants, Reset, multiplexer comparison, switch cases)
+    and descriptor.Signal call the templates emit is well-typed by Go's rules *)
+Theorem C11_conversions_typed : forall db, in_class43 db = true ->
+  forall c, In c (db_convs db) -> conv_ok c = true.
+Proof. exact class_convs_ok. Qed.
+Print Assumptions C11_conversions_typed.
+
+(** hasPhysicalRepresentation as written, in exact terms (no length test): the pattern comparisons
+    with float64(MaxUnsigned()) etc. agree with the exact integers for every length 1..64 *)
+Theorem C11_has_physical_as_written : forall s,
+  f64_finite (s_scale s) = true -> f64_finite (s_offset s) = true ->
+  f64_finite (s_min s) = true -> f64_finite (s_max s) = true ->
+  1 <= s_length s <= 64 ->
+  has_physical_old s =
+    ( (negb (fval (s_scale s) =? 0) && negb (fval (s_scale s) =? scaled 1))
+      || negb (fval (s_offset s) =? 0)
+      || ( (negb (fval (s_min s) =? 0) || negb (fval (s_max s) =? 0))
+           && ( (scaled (raw_min s) <? fval (s_min s)) || (fval (s_max s) <? scaled (raw_max s)) ) ) ).
+Proof. exact has_physical_old_exact. Qed.
+Print Assumptions C11_has_physical_as_written.
+
+(** F4: with the decision as it was written (no [Length > 1]) the physical-accessor statement and the
+    typing statement are FALSE: f4_db (one message, [SG_ Flag : 0|1@1+ (2,0) [0|0]]) is in the class,
+    the property requires no physical accessors, the old decision gives them, and the emitted
+    float64(bool) and SaturatedCastBool are ill-typed. *)
+Theorem C11_api_refuted :
+  in_class43 f4_db = true /\
+  In f4_message (db_messages f4_db) /\ In f4_signal (msg_signals f4_message) /\
+  s_length f4_signal = 1 /\
+  has_physical_spec f4_signal = false /\
+  sa_physical (signal_api_with has_physical_old f4_message f4_signal) = true /\
+  In (CConvert BBool BFloat64) (db_convs_old f4_db) /\ conv_ok (CConvert BBool BFloat64) = false /\
+  In (CSat StBool) (db_convs_old f4_db) /\ conv_ok (CSat StBool) = false.
+Proof. exact api_old_refuted. Qed.
+
+(** the hypotheses are satisfiable: ex_db (2 nodes; a cyclic message with a scaled 12-bit signal, a 3-bit
+    enum, a 1-bit signal WITH a factor, a signed 9-bit signal with an offset; a multiplexed message with a
+    float32 signal and no send type) is in the class, and the decisions are the expected ones *)
+Example C11_nonvacuous :
+  in_class43 ex_db = true /\
+  map (fun m => map signal_prim_type (msg_signals m)) (db_messages ex_db)
+    = [[PUint 16; PUint 8; PBool; PInt 16]; [PUint 8; PInt 16; PFloat32]] /\
+  map (fun m => map has_physical (msg_signals m)) (db_messages ex_db)
+    = [[true; false; false; true]; [false; false; false]] /\
+  map (fun m => map has_physical_old (msg_signals m)) (db_messages ex_db)
+    = [[true; false; true; true]; [false; false; false]] /\
+  option_map (map (fun na => (na_name na, na_rx na, na_tx na))) (api_nodes (api_of_db ex_db))
+    = Some [ (ex_ecu, [msg_name ex_cmd], [(msg_name ex_status, true)]); (ex_gateway, [msg_name ex_status], []) ] /\
+  (28 <= length (db_convs ex_db))%nat /\ db_convs_ok ex_db = true /\ db_convs_ok_old ex_db = false.
+Proof. exact ex_db_facts. Qed.
